@@ -2,6 +2,8 @@
 //@[ imports
 use vstd::prelude::*;
 use crate::vx_gram::*;
+pub assume_specification[ <Struct as Clone>::clone ](x: &Struct) -> (r: Struct) ensures r == *x;
+pub assume_specification[ <Enum as Clone>::clone ](x: &Enum) -> (r: Enum) ensures r == *x;
 //@]
 #[derive(Clone, Debug)]
 pub struct File {
@@ -16,6 +18,9 @@ pub enum FileItem {
     Terminal(TerminalEnum),
 }
 
+//@[ T8: derived Clone kept external; structural contract assumed
+#[verifier::external_derive(Clone)]
+//@]
 #[derive(Clone, Debug)]
 pub struct Struct {
     pub attributes: Vec<Attribute>,
@@ -23,6 +28,9 @@ pub struct Struct {
     pub fieldset: Fieldset,
 }
 
+//@[ T8: derived Clone kept external; structural contract assumed
+#[verifier::external_derive(Clone)]
+//@]
 #[derive(Clone, Debug)]
 pub struct Enum {
     pub attributes: Vec<Attribute>,
